@@ -70,6 +70,9 @@ pub fn run(tier: &str) -> Result<Report, String> {
             let pool = plain_pool(&ctx.user);
             tm.extend(pair_family(&pool, if quick { 4 } else { 12 }, false));
         }
+        if ["imp1", "con2"].contains(&b.name.as_str()) || !quick {
+            tm.extend(crate::formulas::shared_operand_family(&ctx.user));
+        }
         let n_tmpl = tm.len();
         fs.extend(tm);
         parts.push(json!({"part": "core", "network": b.name, "max_nodes": m, "alphabet": alpha.describe(), "formulae": n_size, "template_formulae": n_tmpl}));
